@@ -52,6 +52,8 @@ def _gen_index_script(ch: Chooser, names: list[str]) -> dict[str, list[dict[str,
 
 def gen_plan(ch: Chooser, tier: str) -> dict[str, Any]:
     settings = common.base_settings(ch)
+    if ch.bool(0.1):
+        settings['worker_limit'] = ch.choice([1, 2])   # a bounded pool of per-object workers (per watcher)
     names = {k: [f'{k[0]}{i}' for i in range(ch.int(1, 3))] for k in KINDS}
     names['gizmos'] = ['z0']
     handlers: list[dict[str, Any]] = []
@@ -258,6 +260,21 @@ def oracle(run: runner.Run, oc: Outcome) -> None:
                                f"a change handler/daemon/timer ran in {actor} before the listed {kind} object {e[9]} "
                                f"had been indexed", kind=kind)
                         break
+    # the gate opens: an operator whose listings are over does get to its handlers (nothing stays parked at the gate)
+    limit = common.spec_of(run, opid)['settings'].get('worker_limit')
+    t_end_ = run.sim.now
+    if op is not None and op.alive and not run.step_capped:
+        parked = {}
+        for e in run.sim.trace:
+            if e[2] == 'proc+' and e[3] == op.actor:
+                parked[(e[4], e[5])] = e[1]
+            elif e[2] == 'proc-' and e[3] == op.actor:
+                parked.pop((e[4], e[5]), None)
+        old_ = {k: t for k, t in parked.items() if t_end_ - t > 20.0}
+        if old_:
+            oc.add('C17/gate', 'never-opens-with-a-worker-limit' if limit is not None else 'never-opens',
+                   f"{len(old_)} object(s) entered processing and never left it (since t={min(old_.values()):.2f}, now "
+                   f"t={t_end_:.1f}; worker_limit={limit}): the operator is parked at the index gate", kinds=sorted({k[0] for k in old_}))
     oc.probes['probe.index-removals'] = removals
     oc.probes['probe.key-collisions'] = collisions
     if removals or collisions or run.sim.counters.get('fault.delay'):
